@@ -4,12 +4,14 @@ use crate::Ctx;
 pub mod c01;
 pub mod c14;
 pub mod c15;
+pub mod c16;
 
 pub fn run(ctx: &Ctx) -> Report {
   match ctx.prop.as_str() {
     "C01" => c01::run(ctx),
     "C14" => c14::run(ctx),
     "C15" => c15::run(ctx),
+    "C16" => c16::run(ctx),
     other => {
       eprintln!("no harness for property {other}");
       std::process::exit(2);
